@@ -117,6 +117,9 @@ def graph_diff(a, b):
     oa, ob = {}, {}
     walk(a, "e", set(), oa)
     walk(b, "e", set(), ob)
+    for o, e in ((oa, a), (ob, b)):
+        if "e.memory.external_memory" in o:
+            o["e.memory.external_memory"] = ("observable-bytes", hashlib.sha1(observable_image(e.memory)).hexdigest())
     diffs, skipped = [], {}
     for k in sorted(set(oa) | set(ob)):
         va, vb = oa.get(k, "<absent>"), ob.get(k, "<absent>")
@@ -148,14 +151,33 @@ def _resolve(root, path):
     return cur
 
 
+def observable_image(mem):
+    """The external image with the cells that no access can reach blanked: cells under a handler window
+    (LCD, card slot) or under the payload of a data overlay are served by the overlay, never by the
+    image (C11) -- except the last 256 bytes, which hold the internal RAM."""
+    img = bytearray(mem.external_memory)
+    n = len(img)
+    keep = bytes(img[-256:])
+    for ov in mem.overlays:
+        if ov.start >= n:
+            continue
+        end = min(ov.end + 1, n) if ov.data is None else min(ov.start + len(ov.data), ov.end + 1, n)
+        img[ov.start:end] = bytes(end - ov.start)
+    img[-256:] = keep
+    return bytes(img)
+
+
 def view(e):
     """The machine state the property talks about, as a comparable dict."""
     regs = {n: e.cpu.regs.get(getattr(RN, n)) for n in ("PC", "BA", "I", "X", "Y", "U", "S", "F")}
-    mem = hashlib.sha1(bytes(e.memory.external_memory)).hexdigest()
+    mem = hashlib.sha1(observable_image(e.memory)).hexdigest()
     ovl = []
     for ov in e.memory.overlays:
         if ov.data is not None and not ov.read_only:
             ovl.append((ov.name, hashlib.sha1(bytes(ov.data)).hexdigest()))
+    card = getattr(e.memory, "_card_data", None)
+    if card is not None:
+        ovl.append(("memory-card", hashlib.sha1(bytes(card)).hexdigest()))
     chips = []
     for chip in e.lcd.chips:
         chips.append((chip.state.on, chip.state.start_line, chip.state.page, chip.state.y_address, chip.state.busy,
@@ -186,7 +208,7 @@ def program(e, scn):
     # handler at VEC: MV A,(ISR) ; MV (ISR),00 ; RETI
     w(VEC, [0x80, 0xFC, 0xCC, 0xFC, 0x00, 0x01])
     base = 0xB8000
-    if scn == "loop-timers":
+    if scn in ("loop-timers", "card-ram"):
         # MV (IMR),0x83 ; loop: INC A ; MV [X++],A ; JR -5
         w(base, [0xCC, 0xFB, 0x83, 0x6C, 0x00, 0xB0, 0x24, 0x13, 0x05])
         e._timer_mti_period, e._timer_sti_period = 7, 11
@@ -208,7 +230,7 @@ def program(e, scn):
     e.cpu.regs.set(RN.PC, base)
     e.cpu.regs.set(RN.S, 0xBF000)
     e.cpu.regs.set(RN.U, 0xBE000)
-    e.cpu.regs.set(RN.X, 0xB9000)
+    e.cpu.regs.set(RN.X, 0x40010 if scn == "card-ram" else 0xB9000)
 
 
 def drive(e, scn, step_no):
@@ -287,6 +309,8 @@ def replay_memory(body):
         e.memory.external_memory[:] = bytes(rng.randrange(256) for _ in range(len(e.memory.external_memory)))
         if "card" in cfg:
             e.memory.load_memory_card(bytes(rng.randrange(256) for _ in range(8192)), 8192)
+        else:
+            e.memory._card_data[:] = bytes(rng.randrange(256) for _ in range(len(e.memory._card_data)))
         if "rom" in cfg:
             e.load_rom(bytes(rng.randrange(256) for _ in range(0x40000)))
         if "xram" in cfg:
@@ -326,7 +350,7 @@ def replay_memory(body):
 
 
 def main():
-    spec = json.loads(sys.argv[1]) if len(sys.argv) > 1 else dict(scenarios=["loop-timers", "halt-wake", "keys", "lcd"], save_points=[0, 3, 7, 12, 20, 33, 50], m=60)
+    spec = json.loads(sys.argv[1]) if len(sys.argv) > 1 else dict(scenarios=["loop-timers", "halt-wake", "keys", "lcd", "card-ram"], save_points=[0, 3, 7, 12, 20, 33, 50], m=60)
     res = []
     for scn in spec["scenarios"]:
         res += run(scn, spec["save_points"], spec["m"])
